@@ -7,6 +7,7 @@ CONSTANTS
   Bodies = {1}
   Protos = {"ok", "unk"}
   RoleCfgs <- MCRoleCfgs
+  AllowCfgs <- MCAllowCfgs
   TypeCfgs <- MCTypeCfgs
   NB = 2
   LB = 1
